@@ -26,6 +26,7 @@ import BumpProof.Lemmas.CollExtract
 import BumpProof.Lemmas.CollRev
 import BumpProof.Lemmas.CollRevPerm
 import BumpProof.Coll.Run
+import BumpProof.Lemmas.CollSplice
 import BumpProof.Props.C06
 
 namespace C08
@@ -695,7 +696,35 @@ theorem rev_append_refines (env : Env) (v other : Vec) (hv : v.RWF) (ho : other.
   have ⟨ha, _, _⟩ := rafter_facts (rgrown env v other.len) (rappendSpec true v.rabs other.abs) (by simp [rappendSpec]; omega)
   exact ⟨_, _, heq, by simp [rappendSpec], by rw [ha]; simp [rappendSpec], rfl⟩
 
-/-- non-vacuity: `[1,2,3,4,5].retain(|x| answers 1,0,1,1,0)` on a vector with 2 spare slots -/
+/-! ## `BumpVec::splice` -/
+
+/-- `splice(start..end, src)` behaves like `Vec::splice`: out-of-range arguments panic and leave the
+    contents alone; otherwise the pulls return the front/back of the range, and (no panicking destructors)
+    afterwards the vector is `xs[..start] ++ src ++ xs[end..]` — whatever `size_hint` the source reports -/
+theorem splice_refines (env : Env) (hk : env.kind = .bump) (hb : env.bombs = []) (v : Vec) (hv : v.WF) (start end_ : Nat)
+    (src : List Id) (hint : Nat) (script : List Pull) :
+    ∃ r, splice env v start end_ src hint script = .ok r ∧ r.vec.len ≤ r.vec.cap ∧ v.cap ≤ r.vec.cap ∧
+      (if start > end_ ∨ end_ > v.len then r.vec.abs = v.abs ∧ r.exit = .panic false
+       else r.vec.abs = v.abs.take start ++ src ++ v.abs.drop end_ ∧
+            r.exit = .ret (pullsSpec ((v.abs.take end_).drop start) script).1) := by
+  have ⟨hs, hl⟩ := hv.slots_eq
+  obtain ⟨v', e, h, hc⟩ := splice_holds env hk v v.abs start end_ src hint script hs hl
+  have habs : v'.abs = (spliceSpec env.bombs v.abs start end_ src script).final := Vec.WF.abs_eq h.slots h.len
+  have hle : v'.len ≤ v'.cap := by
+    have h1 := congrArg List.length h.slots
+    simp only [List.length_append, length_I, length_H] at h1
+    have : v'.slots.length = v'.cap := rfl
+    have := h.len
+    omega
+  refine ⟨_, e, hle, hc, ?_⟩
+  simp only [habs]
+  unfold spliceSpec
+  by_cases hr : start > end_ ∨ end_ > v.len
+  · have hr' : start > end_ ∨ end_ > v.abs.length := by omega
+    simp [hr, hr']
+  · have hr' : ¬ (start > end_ ∨ end_ > v.abs.length) := by omega
+    simp [hr, hr', hb]
+
 /-! ## histories (`Coll/Run.lean`): every finite sequence of modelled operations refines the same
    sequence on plain lists -/
 
@@ -785,6 +814,17 @@ theorem history_len_le_cap (env : Env) (ops : List Op) (v : Vec) (hv : v.WF)
     (hfresh : (v.total ++ insRun env v ops).Nodup) : (runD env v ops).len ≤ (runD env v ops).cap :=
   (C06.history_drops_once env ops v hv hfresh).2.1.len_le_cap
 
+/-- non-vacuity: the history of `Props/C06.lean` on plain lists: `[1,2,3]` → push 4 → retain (keep 1, remove 2,
+    panic) → drain(0..2) → resize_with(4) whose closure panics at the second call: `[4,7]` -/
+example : specRun [2] [1, 2, 3]
+      [.push 4, .retain [.ret 1, .ret 0, .panic], .drain 0 2 [.front] .drop, .resizeWith 4 [.ret 7, .panic]]
+      [true, true, true, true] = [4, 7] := by decide
+
+example : roomsRun { bombs := [2], kind := .bump, capIn := 8 } (Vec.mk' [1, 2, 3] 0)
+      [.push 4, .retain [.ret 1, .ret 0, .panic], .drain 0 2 [.front] .drop, .resizeWith 4 [.ret 7, .panic]] =
+    [true, true, true, true] := by decide
+
+/-- non-vacuity: `[1,2,3,4,5].retain(|x| answers 1,0,1,1,0)` on a vector with 2 spare slots -/
 example : ∃ r, retain [] (Vec.mk' [1, 2, 3, 4, 5] 2) (rets [1, 0, 1, 1, 0]) = .ok r ∧ r.vec.abs = [1, 3, 4] ∧ r.vec.cap = 7 :=
   ⟨_, rfl, by decide, by decide⟩
 
